@@ -866,9 +866,20 @@ def parse_rsession_response(status, toks):
     return out
 
 
+PINNED_MTIME = 1_500_000_000
+
+
+def pin_mtime(path):
+    """every file the harness writes, rewrites or truncates gets the SAME modification time: a coarse-timestamp
+    file system or an mtime-preserving restore does this to real files, and a reader must not take "same path, same
+    mtime" for "same content" (seed C14-6: verified headers cached per (path, mtime))"""
+    os.utime(path, (PINNED_MTIME, PINNED_MTIME))
+
+
 def write_file(path, data: bytes):
     with open(path, "wb") as f:
         f.write(data)
+    pin_mtime(path)
 
 
 def modelled_text(data: bytes) -> bool:
